@@ -145,7 +145,11 @@ theorem PI_unitVariant (o : Options) (ext : Ext) (h0 : o.overwrites = []) (nm : 
   · refine ⟨.str (strBytes vn), ?_⟩
     simp only [default_dictionary_field, Field.dataType, Field.nullable, Field.metadata]
     rw [interpDT]
-    · simp [interpScalar, scalarToString]
+    · have hst : o.string_type = .utf8 ∨ o.string_type = .largeUtf8 := by
+        unfold Options.string_type; split
+        · exact .inr rfl
+        · exact .inl rfl
+      rcases hst with hst | hst <;> simp [interpScalar, interpDictStr, hst, scalarToString]
     · intro fs mode e; cases e
   · obtain ⟨g, hg1, hg2⟩ := variants_to_fields_get vs2 0 fields idx vn c2 hfs hc2
     obtain ⟨gn, cdt, cn, cmd⟩ := g
